@@ -200,6 +200,31 @@ fn glob_walk_case(rng: &mut Rng, spec: &mut TreeSpec, root: &Path, cwd: &Path, f
             let dirs = spec.dirs();
             let r0 = if dirs.is_empty() || rng.chance(1, 2) { root.to_path_buf() } else { root.join(rng.pick(&dirs)) };
             let text = r0.to_string_lossy().to_string();
+            // One rooted case in three: the first component of the glob is variant, so the
+            // invariant prefix is only the root.
+            let comps: Vec<String> = r0
+                .components()
+                .filter_map(|c| match c {
+                    std::path::Component::Normal(n) => Some(n.to_string_lossy().to_string()),
+                    _ => None,
+                })
+                .collect();
+            if rng.chance(1, 3) && comps.len() >= 2 && comps[0].chars().count() >= 2 && comps[0].is_ascii() {
+                let mut first: Vec<char> = comps[0].chars().collect();
+                let n = first.len();
+                first[n - 1] = '?';
+                let first: String = first.into_iter().collect();
+                let rest = comps[1..].iter().map(|c| wax::escape(c).to_string()).collect::<Vec<_>>().join("/");
+                let expr = format!("/{}/{}/{}", wax::escape(&first).replace("\\?", "?"), rest, g);
+                return Some(GlobWalkCase {
+                    family: "rooted-variant-first-component",
+                    expr,
+                    start: r0,
+                    base: cwd.to_path_buf(),
+                    base_label: "ignored(rooted)",
+                    start_candidate: text,
+                });
+            }
             let expr = format!("{}/{}", wax::escape(&text), g);
             let base = match rng.below(3) {
                 0 => cwd.to_path_buf(),
@@ -247,7 +272,9 @@ fn c02_walk(idx: usize, ctx: &Ctx, rpt: &mut Report) {
     };
     let behaviour = WalkBehavior {
         depth: DepthBehavior::Unbounded,
-        link: if rng.chance(1, 3) { LinkBehavior::ReadTarget } else { LinkBehavior::ReadFile },
+        // The variant-first-component family walks from the file system root: links are not
+        // followed there and the model never traverses from the anchor.
+        link: if case.family != "rooted-variant-first-component" && rng.chance(1, 3) { LinkBehavior::ReadTarget } else { LinkBehavior::ReadFile },
     };
     if anchor_is_link(&glob, &case.base) {
         rpt.bucket("skipped:walk-starts-at-a-symbolic-link");
@@ -329,7 +356,7 @@ fn c02_walk(idx: usize, ctx: &Ctx, rpt: &mut Report) {
     let (missing, extra) = diff(&exp, &got);
     if !missing.is_empty() || !extra.is_empty() {
         let key = match case.family {
-            "rooted" => Some("rooted-glob-walk"),
+            "rooted" | "rooted-variant-first-component" => Some("rooted-glob-walk"),
             "dotdot-prefix" => Some("dotdot-prefix-glob-walk"),
             "dot-prefix" => Some("dot-prefix-glob-walk-yields-nothing"),
             _ => None,
@@ -582,6 +609,8 @@ struct StackCase {
     gexpr: Option<String>,
     layers: Vec<LayerSpec>,
     behaviour: WalkBehavior,
+    /// Depth window denoted by the behaviour, measured from the base.
+    window: (usize, Option<usize>),
 }
 
 fn stack_case(rng: &mut Rng, idx: usize, max_layers: usize) -> StackCase {
@@ -593,9 +622,33 @@ fn stack_case(rng: &mut Rng, idx: usize, max_layers: usize) -> StackCase {
             walkgen::steer(rng, &mut spec, &e, 2);
         }
     }
-    let gexpr = if idx % 3 == 1 { Some(walkgen::walk_glob(rng, &spec)) } else { None };
+    let mut gexpr = if idx % 3 == 1 { Some(walkgen::walk_glob(rng, &spec)) } else { None };
+    // One case in four runs under a depth behaviour; most of those are glob walks with an
+    // invariant prefix (the depth bounds are translated by the prefix length).
+    let (depth, window) = if idx % 4 == 3 {
+        let mut prefix_len = 0;
+        let dirs = spec.dirs();
+        if !dirs.is_empty() && rng.chance(2, 3) {
+            let d = rng.pick(&dirs).clone();
+            prefix_len = d.split('/').count();
+            let tail = *rng.pick(&["**", "**/*", "*", "*/*", "**/*.rs", "*/**"]);
+            gexpr = Some(format!("{}/{}", wax::escape(&d), tail));
+        }
+        let mut chosen = None;
+        for _ in 0..8 {
+            let (d, w, _) = walkgen::depth_behaviour(rng, 5);
+            if w.1.map_or(true, |m| m >= prefix_len) {
+                chosen = Some((d, w));
+                break;
+            }
+        }
+        chosen.unwrap_or((DepthBehavior::Unbounded, (0, None)))
+    }
+    else {
+        (DepthBehavior::Unbounded, (0, None))
+    };
     let behaviour = WalkBehavior {
-        depth: DepthBehavior::Unbounded,
+        depth,
         link: if idx % 3 == 0 && rng.chance(1, 2) { LinkBehavior::ReadTarget } else { LinkBehavior::ReadFile },
     };
     StackCase {
@@ -603,6 +656,7 @@ fn stack_case(rng: &mut Rng, idx: usize, max_layers: usize) -> StackCase {
         gexpr,
         layers,
         behaviour,
+        window,
     }
 }
 
@@ -611,6 +665,7 @@ struct Ran {
     calls: Vec<Option<Vec<PathBuf>>>,
     sim: walksim::Sim,
     start: PathBuf,
+    prefix_len: usize,
 }
 
 fn run_stack(case: &StackCase, layers: &[LayerSpec], root: &Path, base: &Path, glob: Option<&Glob>) -> Option<Ran> {
@@ -637,9 +692,15 @@ fn run_stack(case: &StackCase, layers: &[LayerSpec], root: &Path, base: &Path, g
         },
         None => (base.to_path_buf(), None),
     };
+    let prefix_len = gm.as_ref().map_or(0, |g| g.prefix.len());
+    if case.window.1.map_or(false, |m| m < prefix_len) {
+        // Listed C15 finding (a maximum smaller than the prefix still yields the prefix
+        // directory): left to C15.
+        return None;
+    }
     let model = model_walk(&start, follow_of(&case.behaviour));
-    let sim = walksim::simulate(&model.entries, gm.as_ref(), &stack.models, root, (0, None));
-    Some(Ran { obs, calls, sim, start })
+    let sim = walksim::simulate(&model.entries, gm.as_ref(), &stack.models, root, case.window);
+    Some(Ran { obs, calls, sim, start, prefix_len })
 }
 
 fn stack_witness(case: &StackCase, layers: &[LayerSpec]) -> Value {
@@ -728,7 +789,14 @@ fn c13(idx: usize, ctx: &Ctx, rpt: &mut Report) {
         }
     }
     // (b) Conservation: what was read is exactly what is not beneath a discarded tree.
-    let expected_read = multiset(ran.sim.read.iter().map(|e| e.path.clone()));
+    // (Entries shallower than a minimum depth are read but not produced by the traversal.)
+    let expected_read = multiset(
+        ran.sim
+            .read
+            .iter()
+            .filter(|e| ran.prefix_len + e.depth >= case.window.0)
+            .map(|e| e.path.clone()),
+    );
     let got_read = multiset(yields.into_iter());
     let (missing, extra) = diff(&expected_read, &got_read);
     if !missing.is_empty() || !extra.is_empty() {
@@ -770,7 +838,7 @@ fn c13(idx: usize, ctx: &Ctx, rpt: &mut Report) {
             .sim
             .read
             .iter()
-            .filter(|e| e.descends && !ran.sim.td.contains(&e.rel))
+            .filter(|e| e.descends && !ran.sim.td.contains(&e.rel) && case.window.1.map_or(true, |m| ran.prefix_len + e.depth < m))
             .map(|e| e.path.to_string_lossy().to_string())
             .collect();
         let line = json!({"pid": std::process::id(), "seq": walkrun::last_walk_seq(), "case_index": idx, "discarded": discarded, "read_dirs": read_dirs});
@@ -784,6 +852,12 @@ fn c13(idx: usize, ctx: &Ctx, rpt: &mut Report) {
     }
     if linked_base {
         rpt.bucket("base-is-a-link");
+    }
+    if case.window != (0, None) {
+        rpt.bucket("depth-bounded-walks");
+        if !ran.sim.td.is_empty() {
+            rpt.bucket("depth-bounded-walks-with-discarded-trees");
+        }
     }
     if !ran.sim.td.is_empty() {
         rpt.bucket("stacks-with-discarded-trees");
@@ -917,7 +991,77 @@ fn c16(idx: usize, ctx: &Ctx, rpt: &mut Report) {
 // C14
 // ------------------------------------------------------------------------------------------
 
+/// Rooted globs whose invariant prefix is only the root, walked at most one level deep from the
+/// file system root.
+fn c14_root_walk(idx: usize, ctx: &Ctx, rpt: &mut Report) {
+    use wax::walk::DepthMax;
+    let mut rng = Rng::derive(ctx.seed, "C14-root", idx as u64);
+    let expr = *rng.pick(&["/**", "/", "/*", "/**/*", "/?*", "/{tmp,usr,etc}", "/<*/:0,1>*", "/t*"]);
+    let max = rng.below(2);
+    ctx.begin(idx, &format!("walk {} from the file system root, DepthMax({})", expr, max));
+    let glob = match Glob::new(expr) {
+        Ok(g) => g,
+        Err(_) => return,
+    };
+    let behaviour = WalkBehavior {
+        depth: DepthBehavior::Max(DepthMax(max)),
+        link: LinkBehavior::ReadFile,
+    };
+    let base = PathBuf::from(*rng.pick(&["/nonexistent-base", ".", "/tmp", ""]));
+    let obs = match guarded(|| walkrun::run(&base, Some(&glob), behaviour, &[])) {
+        Some(o) => o,
+        None => return,
+    };
+    rpt.bucket("glob:rooted-at-the-file-system-root");
+    let mut n = 0;
+    for it in obs.items.iter().filter(|i| !i.is_err) {
+        let path = match &it.path {
+            Some(p) => p,
+            None => continue,
+        };
+        n += 1;
+        rpt.evaluations += 1;
+        let relative = it.relative.to_string_lossy().to_string();
+        let mut problems: Vec<&'static str> = Vec::new();
+        if it.root.join(&it.relative) != *path {
+            problems.push("root-joined-with-relative-is-not-the-path");
+        }
+        if it.depth != it.relative.components().count() {
+            problems.push("depth-is-not-the-component-count-of-the-relative-segment");
+        }
+        if it.matched.as_deref() != Some(relative.as_str()) {
+            problems.push("matched-text-is-not-the-relative-segment");
+        }
+        if guarded(|| glob.is_match(it.relative.as_path())) != Some(true) {
+            problems.push("glob-does-not-match-the-relative-segment");
+        }
+        if it.candidate != it.matched {
+            problems.push("candidate-path-is-not-the-matched-text");
+        }
+        if !it.root.as_os_str().is_empty() || it.relative != *path {
+            problems.push("rooted-glob-root-segment-not-empty");
+        }
+        if let Some(first) = problems.first() {
+            rpt.disagreement(
+                &ctx.known,
+                first,
+                None,
+                json!({"problems": problems, "case": {"glob": expr, "base": base.to_string_lossy(), "behaviour": behaviour_json(&behaviour), "entry": {"path": path.to_string_lossy(), "root": it.root.to_string_lossy(), "relative": relative, "depth": it.depth, "matched": it.matched}}}),
+            );
+            break;
+        }
+    }
+    if n > 0 {
+        rpt.nontrivial.insert(hash_str(&format!("rootwalk|{}|{}|{}", expr, max, base.display())));
+        rpt.bucket_n("entries-checked", n);
+    }
+}
+
 fn c14(idx: usize, ctx: &Ctx, rpt: &mut Report) {
+    if idx % 40 == 7 {
+        c14_root_walk(idx, ctx, rpt);
+        return;
+    }
     let mut rng = Rng::derive(ctx.seed, "C14", idx as u64);
     let mut spec = walkgen::tree(&mut rng, 26, idx % 4 == 0, false);
     let cont = container(ctx, idx);
@@ -1256,23 +1400,27 @@ fn apply_fault(t: &mut TreeSpec, f: &Fault) {
 
 const C20_STACKS: usize = 4;
 
+const C20_DEPTHS: usize = 3;
+
 fn c20_case_count() -> usize {
-    // Enumerated: trees x (none + singles + sampled pairs) x link modes x stacks.
+    // Enumerated: trees x (none + singles + sampled pairs) x link modes x stacks x depth kinds.
     let mut n = 0;
     for k in 0..4 {
         let s = fault_sites(&fault_base_tree(k)).len();
-        n += (1 + s + s.min(40)) * 2 * C20_STACKS;
+        n += (1 + s + s.min(40)) * 2 * C20_STACKS * C20_DEPTHS;
     }
     n
 }
 
-fn c20_decode(mut idx: usize, rng: &mut Rng) -> Option<(usize, Vec<Fault>, bool, usize)> {
+fn c20_decode(mut idx: usize, rng: &mut Rng) -> Option<(usize, Vec<Fault>, bool, usize, usize)> {
     for k in 0..4 {
         let t = fault_base_tree(k);
         let sites = fault_sites(&t);
         let s = sites.len();
-        let per = (1 + s + s.min(40)) * 2 * C20_STACKS;
+        let per = (1 + s + s.min(40)) * 2 * C20_STACKS * C20_DEPTHS;
         if idx < per {
+            let depth_kind = idx % C20_DEPTHS;
+            idx /= C20_DEPTHS;
             let stack = idx % C20_STACKS;
             idx /= C20_STACKS;
             let follow = idx % 2 == 1;
@@ -1288,7 +1436,7 @@ fn c20_decode(mut idx: usize, rng: &mut Rng) -> Option<(usize, Vec<Fault>, bool,
                 let b = sites[rng.below(s)].clone();
                 vec![a, b]
             };
-            return Some((k, faults, follow, stack));
+            return Some((k, faults, follow, stack, depth_kind));
         }
         idx -= per;
     }
@@ -1298,8 +1446,8 @@ fn c20_decode(mut idx: usize, rng: &mut Rng) -> Option<(usize, Vec<Fault>, bool,
 fn c20(idx: usize, ctx: &Ctx, rpt: &mut Report, enumerated: usize) {
     let mut rng = Rng::derive(ctx.seed, "C20", idx as u64);
     let is_root = unsafe { libc::geteuid() } == 0;
-    let (spec, faults_desc, follow, stack_kind) = if idx < enumerated {
-        let (k, faults, follow, stack) = match c20_decode(idx, &mut rng) {
+    let (spec, faults_desc, follow, stack_kind, depth_kind) = if idx < enumerated {
+        let (k, faults, follow, stack, depth_kind) = match c20_decode(idx, &mut rng) {
             Some(x) => x,
             None => return,
         };
@@ -1307,11 +1455,11 @@ fn c20(idx: usize, ctx: &Ctx, rpt: &mut Report, enumerated: usize) {
         for f in &faults {
             apply_fault(&mut t, f);
         }
-        (t, format!("{:?}", faults), follow, stack)
+        (t, format!("{:?}", faults), follow, stack, depth_kind)
     }
     else {
         let t = walkgen::tree(&mut rng, 30, true, true);
-        (t, "random".to_string(), rng.chance(1, 2), rng.below(C20_STACKS))
+        (t, "random".to_string(), rng.chance(1, 2), rng.below(C20_STACKS), rng.below(C20_DEPTHS))
     };
     let has_unreadable = spec.nodes.iter().any(|n| n.unreadable);
     if has_unreadable && is_root {
@@ -1328,8 +1476,16 @@ fn c20(idx: usize, ctx: &Ctx, rpt: &mut Report, enumerated: usize) {
             return;
         },
     };
+    // Depth kinds: unbounded, or windows wide enough to contain every fault (so the expected
+    // faults do not change): a min-max window and a maximum.
+    let (depth, min_depth) = match depth_kind {
+        0 => (DepthBehavior::Unbounded, 0usize),
+        1 => (wax::walk::DepthMinMax::from_depths_or_max(1, 64), 1usize),
+        _ => (DepthBehavior::Max(wax::walk::DepthMax(64)), 0usize),
+    };
+    rpt.bucket(&format!("depth-kind:{}", depth_kind));
     let behaviour = WalkBehavior {
-        depth: DepthBehavior::Unbounded,
+        depth,
         link: if follow { LinkBehavior::ReadTarget } else { LinkBehavior::ReadFile },
     };
     let layers: Vec<LayerSpec> = match stack_kind {
@@ -1395,7 +1551,7 @@ fn c20(idx: usize, ctx: &Ctx, rpt: &mut Report, enumerated: usize) {
         return;
     }
     // The readable part is walked completely.
-    let exp_ok = multiset(model.oks().map(|e| e.path.clone()));
+    let exp_ok = multiset(model.oks().filter(|e| e.depth >= min_depth).map(|e| e.path.clone()));
     let got_ok = ok_paths(&bare.items);
     let (missing, extra) = diff(&exp_ok, &got_ok);
     if !missing.is_empty() || !extra.is_empty() {
@@ -1446,7 +1602,7 @@ fn c20(idx: usize, ctx: &Ctx, rpt: &mut Report, enumerated: usize) {
             return;
         }
         // Ok items: exactly those every layer keeps (no tree discards in these stacks).
-        let sim = walksim::simulate(&model.entries, None, &stack.models, &root, (0, None));
+        let sim = walksim::simulate(&model.entries, None, &stack.models, &root, (min_depth, None));
         let exp = multiset(sim.yielded.iter().map(|e| e.path.clone()));
         let got = ok_paths(&filtered.items);
         let (missing, extra) = diff(&exp, &got);
@@ -1501,7 +1657,7 @@ impl Monitor for GroupC {
                 level: "exploration",
                 rule: "glob walks (no prefix, prefixes of 1-3 components, rooted) from 7 base spellings (absolute, relative, trailing separator, trailing '.', './' prefixed, empty with cwd inside the tree) under random depth and link behaviours; on every yielded entry: root.join(relative)==path, depth==components(relative), matched==relative, glob matches relative, candidate==matched, root==base (unrooted) or empty (rooted). distinct_nontrivial = distinct (glob, base spelling, tree) walks with at least one entry checked.",
                 assumptions: &["Path equality is component-wise"],
-                floors: &["glob:rooted", "glob:prefixed", "glob:no-prefix", "prefix-length:2", "base:relative", "base:absolute-trailing-separator", "base:empty(cwd=tree)"],
+                floors: &["glob:rooted", "glob:prefixed", "glob:no-prefix", "prefix-length:2", "base:relative", "base:absolute-trailing-separator", "base:empty(cwd=tree)", "glob:rooted-at-the-file-system-root"],
             },
             "C15" => Meta {
                 id: "C15",
@@ -1525,7 +1681,7 @@ impl Monitor for GroupC {
                 level: "fault_enumeration",
                 rule: "enumeration over 4 fixed small trees of every single placement of {unreadable directory (mode 000, walked as uid 65534), dangling link, re-entrant link} x {first, middle, last child; every directory; the root} plus sampled pairs, x both link behaviours x 4 combinator stacks; plus random larger trees with links and unreadable directories. Err items (by path) must equal the model's faults, Ok items the walk of the readable part, and with combinators the item sequence must be a subsequence of the bare walk's that keeps every error item in place. distinct_nontrivial = distinct fault cases with at least one expected fault.",
                 assumptions: &["permission faults require an unprivileged uid (workers re-execute as uid 65534 when started as root)", "directory read order is stable between two walks of the same unchanged tree"],
-                floors: &["faults:some", "faults:none", "faults:several", "faults:unreadable-directory", "stack-kind:0", "stack-kind:3", "link:ReadTarget"],
+                floors: &["faults:some", "faults:none", "faults:several", "faults:unreadable-directory", "stack-kind:0", "stack-kind:3", "link:ReadTarget", "depth-kind:1", "depth-kind:2"],
             },
         }
     }
